@@ -1006,6 +1006,59 @@ func (w *world) corpus(f *idp, r *c.Rng) []c.Case {
 			CookieVal: v, HasCookie: true, CookieCoq: coq, Refresh: okRefresh, Validate: okValidate, From: -1}, true), fresh.Email))
 		out = append(out, w.reqCase(w.signIn(f, r, siOpts{Slug: slug, Method: "GET", ClientOK: true, SigOK: true, Redirect: goodRedirects[0], State: "s",
 			CookieVal: v, HasCookie: true, CookieCoq: coq, Refresh: okRefresh, Validate: okValidate, BadSeg: true, From: -1}, true), fresh.Email))
+		// each gate of /sign_in failing alone, everything else in order (a live cookie, a correct MAC over what is sent)
+		out = append(out, w.reqCase(w.signIn(f, r, siOpts{Slug: slug, Method: "GET", ClientOK: true, SigOK: true, Redirect: badRedirects[0], State: "s",
+			CookieVal: v, HasCookie: true, CookieCoq: coq, Refresh: okRefresh, Validate: okValidate, From: -1}, true), fresh.Email))
+		out = append(out, w.reqCase(w.signIn(f, r, siOpts{Slug: slug, Method: "GET", ClientOK: true, SigOK: true, Redirect: badRedirects[1], State: "s",
+			CookieVal: v, HasCookie: true, CookieCoq: coq, Refresh: okRefresh, Validate: okValidate, From: -1}, true), fresh.Email))
+		out = append(out, w.reqCase(w.signIn(f, r, siOpts{Slug: slug, Method: "GET", ClientOK: false, SigOK: true, Redirect: goodRedirects[0], State: "s",
+			CookieVal: v, HasCookie: true, CookieCoq: coq, Refresh: okRefresh, Validate: okValidate, From: -1}, true), fresh.Email))
+		staleSig := sigInfo{Text: sign(clientSecret, goodRedirects[0], now.Unix()-900), Key: clientSecret, Msg: goodRedirects[0] + fmt.Sprint(now.Unix()-900)}
+		out = append(out, w.reqCase(w.signIn(f, r, siOpts{Slug: slug, Method: "GET", ClientOK: true, SigOK: false, Redirect: goodRedirects[0], State: "s",
+			CookieVal: v, HasCookie: true, CookieCoq: coq, Refresh: okRefresh, Validate: okValidate, From: -1, fixedSig: &staleSig, fixedTS: fmt.Sprint(now.Unix() - 900)}, true), fresh.Email))
+		wrongKey := sigInfo{Text: sign("wrong-secret", goodRedirects[0], now.Unix()), Key: "wrong-secret", Msg: goodRedirects[0] + fmt.Sprint(now.Unix())}
+		out = append(out, w.reqCase(w.signIn(f, r, siOpts{Slug: slug, Method: "GET", ClientOK: true, SigOK: false, Redirect: goodRedirects[0], State: "s",
+			CookieVal: v, HasCookie: true, CookieCoq: coq, Refresh: okRefresh, Validate: okValidate, From: -1, fixedSig: &wrongKey, fixedTS: fmt.Sprint(now.Unix())}, true), fresh.Email))
+		// /sign_out with a correctly signed out-of-domain return address; with a stale signature
+		out = append(out, w.reqCase(w.signOut(f, r, soOpts{Slug: slug, Method: "POST", SigOK: true, Redirect: badRedirects[0], CookieVal: v, HasCookie: true,
+			CookieCoq: coq, Revoke: ans{200, ""}, InBody: true, From: -1}, true), fresh.Email))
+		staleOut := sigInfo{Text: sign(clientSecret, "https://app.proxy.test/", now.Unix()-900), Key: clientSecret, Msg: "https://app.proxy.test/" + fmt.Sprint(now.Unix()-900)}
+		out = append(out, w.reqCase(w.signOut(f, r, soOpts{Slug: slug, Method: "POST", SigOK: false, Redirect: "https://app.proxy.test/", CookieVal: v, HasCookie: true,
+			CookieCoq: coq, Revoke: ans{200, ""}, InBody: true, From: -1, fixedSig: &staleOut, fixedTS: fmt.Sprint(now.Unix() - 900)}, true), fresh.Email))
+		// /start with a correctly signed out-of-domain nested redirect
+		{
+			s, _ := w.start(f, r, stOpts{Slug: slug, Method: "GET", OuterOK: true, SigOK: true, Inner: badRedirects[0]}, true)
+			out = append(out, w.reqCase(s))
+			s, _ = w.start(f, r, stOpts{Slug: slug, Method: "GET", OuterOK: false, SigOK: true, Inner: goodRedirects[0]}, true)
+			out = append(out, w.reqCase(s))
+		}
+		// /callback: honest; state naming an out-of-domain redirect (right nonce); another flow's cookie
+		{
+			n1, st, outer, _ := w.startGenuine(f, r, slug)
+			n2, _, _, _ := w.startGenuine(f, r, slug)
+			plain := n1 + ":" + outer
+			out = append(out, w.reqCase(w.callback(f, r, cbOpts{Slug: slug, Method: "GET", Code: "idp-c", HasState: true, State: st, Plain: &plain, Csrf: &n1,
+				Login: genLogin(r, slug, "alice@example.com", 0), From: -1}, true), "alice@example.com"))
+			evil := n1 + ":https://sso-auth.evil.test/" + slug + "/sign_in?x=1"
+			out = append(out, w.reqCase(w.callback(f, r, cbOpts{Slug: slug, Method: "GET", Code: "idp-c", HasState: true, State: enc(evil), Plain: &evil, Csrf: &n1,
+				Login: genLogin(r, slug, "alice@example.com", 0), From: -1}, true), "alice@example.com"))
+			out = append(out, w.reqCase(w.callback(f, r, cbOpts{Slug: slug, Method: "GET", Code: "idp-c", HasState: true, State: st, Plain: &plain, Csrf: &n2,
+				Login: genLogin(r, slug, "alice@example.com", 0), From: -1}, true), "alice@example.com"))
+			out = append(out, w.reqCase(w.callback(f, r, cbOpts{Slug: slug, Method: "GET", Code: "idp-c", HasState: true, State: st, Plain: &plain, Csrf: &n1,
+				Login: genLogin(r, slug, "alice@example.com", 1), From: -1}, true), "alice@example.com"))
+		}
+		// another Host: a perfectly good sign-in request must not be served
+		{
+			tab := newTab()
+			si := sigInfo{Text: sign(clientSecret, goodRedirects[0], now.Unix()), Key: clientSecret, Msg: goodRedirects[0] + fmt.Sprint(now.Unix())}
+			tab.addSig(si)
+			tab.addRedirect(goodRedirects[0])
+			q := reqSpec{Host: "evil.test", Path: "/" + slug + "/sign_in", Method: "GET", Sess: map[string]string{slug: v},
+				Query: strings.Join([]string{pair("client_id", clientID), pair("redirect_uri", goodRedirects[0]), pair("sig", si.Text), pair("ts", fmt.Sprint(now.Unix())), pair("state", "s")}, "&")}
+			g := newGhost("RtOutside", slug, "GET")
+			g.JSON = map[string]interface{}{"routing_probe": q.Path, "host": q.Host}
+			out = append(out, w.reqCase(w.runStep(f, q, defaultAnswers(), tab, g, true), fresh.Email))
+		}
 		// sign-out: valid POST with a live session, IdP ok / failing; GET; junk cookie
 		for _, rv := range []ans{{200, ""}, {503, "down"}, {400, `{"error_description":"Token expired or revoked"}`}} {
 			out = append(out, w.reqCase(w.signOut(f, r, soOpts{Slug: slug, Method: "POST", SigOK: true, Redirect: "https://app.proxy.test/", CookieVal: v, HasCookie: true,
